@@ -360,3 +360,129 @@ def parse_rest(eng, st, s):
 @GH.ghost('pack4')
 def pack4(eng, st, x):
     return eng.int_to_bytes(eng.term(x, INT), 4, st)
+
+
+# ---- C07: enc(v), the bytes v.serialize() returns, defined by the class's own stream_serialize ---------------------------
+
+def enc_uf(eng, v):
+    from pyvc.types import BYTES_SORT
+    return eng.uf('enc', v.t.sort(), BYTES_SORT)(v.t)
+
+
+@GH.ghost('enc_of')
+def enc_of(eng, st, v):
+    """enc(v) unfolded one level: the real stream_serialize of v's class is executed on an empty stream (component objects
+    contribute through their own contracts, i.e. as enc(component)); the result is tied to the summary term enc(v)."""
+    from pyvc.engine import State, Frame, Raised, HeapObj, Ref
+    from pyvc.types import BYTES_SORT
+    if not (isinstance(v, V) and v.ty.kind == 'cls'):
+        raise Outside("enc_of of a non-object")
+    root = eng.reg.root_of(v.ty.args[0])
+    cis = eng.reg.concrete(root)
+    if v.ty.args[0] in eng.reg.classes and v.ty.args[0] != root:
+        cis = [eng.reg.classes[v.ty.args[0]]]
+    cases = []
+    for ci in cis:
+        fn = None
+        for k in ci.pyclass.__mro__:
+            if 'stream_serialize' in k.__dict__:
+                fn = k.__dict__['stream_serialize']
+                break
+        sub = State()
+        sub.stack = [Frame({}, None, fn.__globals__, 'enc_of')]
+        sub.pc = [ci.recog(v.t)] if len(eng.reg.concrete(root)) > 1 else []
+        (s0, f), = list(eng.new_stream([], sub))
+        outs = []
+        for s2, r in eng.call_function(fn, [V(v.t, CLS(ci.name)), f], {}, s0, inline=True):
+            if isinstance(r, Raised):
+                continue
+            # decisions (branch conditions: which subclass, which path) guard the case; the other facts of the path
+            # only constrain symbols introduced by this very execution (loop-head values described by the verified
+            # invariants of the inlined list encoder, results of callee contracts): they define the returned term
+            decs = [d for d in s2.dec]
+            ids = {d.get_id() for d in decs}
+            facts = [c for c in s2.pc if c.get_id() not in ids and not any(c.eq(x) for x in sub.pc)]
+            cond = eng._and(list(sub.pc) + decs)
+            outs.append((cond, s2.heap[f.loc].fields['data'].t, facts))
+        for cond, data, facts in outs:
+            cases.append((cond, data))
+            if not st.bound:
+                for fct in facts:
+                    eng.add_func_axiom(z3.Implies(eng.b(cond), fct))
+    if not cases:
+        raise Outside("stream_serialize of %s has no normal outcome" % root)
+    e = enc_uf(eng, v)
+    term = cases[-1][1]
+    for cond, data in reversed(cases[:-1]):
+        term = z3.If(eng.b(cond), data, term)
+    for cond, data in cases:
+        if not st.bound:
+            eng.add_func_axiom(z3.Implies(eng.b(cond), e == data))
+    return V(term, BYTES)
+
+
+@GH.ghost('vlq')
+def vlq(eng, st, i):
+    """the bytes stream_serialize_vlq writes for i (summary of that function; see contracts/codec.py)"""
+    from pyvc.types import BYTES_SORT
+    f = eng.uf('vlq_enc', z3.IntSort(), BYTES_SORT)
+    t = f(eng.term(i, INT))
+    if not st.bound:
+        eng.add_func_axiom(z3.Length(t) >= 1)
+    return V(t, BYTES)
+
+
+@GH.ghost('enc_list')
+def enc_list(eng, st, lst, i):
+    """concatenation of the encodings of the first i elements of a list of serializable objects (prefix recursion)"""
+    from pyvc.types import BYTES_SORT, to_sort
+    lv = eng.lift(lst, st) if not isinstance(lst, V) else lst
+    es = to_sort(lv.ty.args[0], eng.reg)
+    LS = z3.SeqSort(es)
+    f = eng.uf('enc_list', LS, z3.IntSort(), BYTES_SORT)
+    enc = eng.uf('enc', es, BYTES_SORT)
+    key = 'enc_list/' + str(es)
+    if key not in eng._ghost_defs:
+        eng._ghost_defs.add(key)
+        ll = z3.Const('el!l_' + str(es), LS)
+        kk = z3.Int('el!k')
+        eng.axioms.append(z3.ForAll([ll], f(ll, 0) == z3.Empty(BYTES_SORT), patterns=[f(ll, 0)]))
+        eng.axioms.append(z3.ForAll([ll, kk], z3.Implies(z3.And(kk >= 0, kk < z3.Length(ll)),
+                                                         f(ll, kk + 1) == z3.Concat(f(ll, kk), enc(ll[kk]))), patterns=[f(ll, kk + 1)]))
+    it = eng.term(i, INT)
+    if not st.bound:
+        eng.add_func_axiom(f(lv.t, z3.IntVal(0)) == z3.Empty(BYTES_SORT))
+        eng.add_func_axiom(z3.Implies(z3.And(it - 1 >= 0, it - 1 < z3.Length(lv.t)),
+                                      f(lv.t, it) == z3.Concat(f(lv.t, it - 1), enc(lv.t[it - 1]))))
+        # prefix stability (lemma ghost.enc_list-prefix, proved by induction in lemmas.py): the encoding of the first k
+        # elements does not depend on what follows them
+        if z3.is_app_of(lv.t, z3.Z3_OP_SEQ_CONCAT) and z3.is_app_of(lv.t.arg(lv.t.num_args() - 1), z3.Z3_OP_SEQ_UNIT):
+            rest = [lv.t.arg(k) for k in range(lv.t.num_args() - 1)]
+            base = rest[0] if len(rest) == 1 else z3.Concat(*rest)
+            for k in (it, z3.simplify(it - 1)):
+                eng.add_func_axiom(z3.Implies(z3.And(k >= 0, k <= z3.Length(base)), f(lv.t, k) == f(base, k)))
+    return V(f(lv.t, it), BYTES)
+
+
+@GH.ghost('id_ok')
+def id_ok(eng, st, v):
+    """the id cached in a decoded object (if any) is the double SHA-256 of its canonical encoding (of its header's, for a
+    block); for the classes without a cached id this is True"""
+    from pyvc.types import BYTES_SORT, opt_sort
+    from pyvc.interp import Interp
+    if not (isinstance(v, V) and v.ty.kind == 'cls'):
+        raise Outside("id_ok of a non-object")
+    name = v.ty.args[0]
+    if name not in ('Transaction', 'Block'):
+        return V(z3.BoolVal(True), BOOL)
+    ci = eng.reg.classes[name]
+    ch = Interp.field_term(ci, 'cached_hash', v.t)
+    O = opt_sort(BYTES_SORT)
+    sha = eng.uf('sha256d', BYTES_SORT, BYTES_SORT)
+    if name == 'Transaction':
+        e = enc_uf(eng, v)
+    else:
+        hci = eng.reg.classes['BlockHeader']
+        e = enc_uf(eng, V(Interp.field_term(ci, 'header', v.t), CLS('BlockHeader')))
+    eng.assumptions_used.add('A-HASH')
+    return V(z3.Or(O.is_none(ch), z3.And(O.is_some(ch), O.val(ch) == sha(e))), BOOL)
